@@ -44,7 +44,11 @@ func (c07) WorkerEnv(cfg *core.Config, shard int) []string {
 	return []string{"VERIF_HASH_SEEDS=" + core.SeedVectorHex(cfg.Seed, shard)}
 }
 
-func c07Programs(cfg *core.Config) int { return cfg.Pick(402, 6700) }
+func c07Programs(cfg *core.Config) int { return cfg.Pick(402, 3350) }
+
+// WorkerWallMinutes: every worker evaluates the whole program list; do not let the driver's default
+// 40-minute watchdog cut a thorough run on a loaded machine.
+func (c07) WorkerWallMinutes() int { return 150 }
 
 func (c07) NumCases(cfg *core.Config) int { return c07Programs(cfg) * c07K(cfg) }
 
